@@ -1,15 +1,19 @@
-"""Symbolic evaluation of small case-analysis functions ("decision tables").
+"""Case tables of small case-analysis functions, by abstract interpretation over
+a free term algebra.
 
-A function is explored over a finite set of *worlds*; in each world its
-parameters are bound to terms - None, an opaque object, a record with known
-fields, a concrete tuple - and the body is interpreted over terms: attribute
-access, calls of unknown functions and constructors build terms, `is None`,
-truth tests and (in)equalities are decided when the terms allow it and fork
-the world otherwise (the choice is remembered, so that the same question gets
-the same answer later in that world).  Loops are unrolled when they walk a
-concrete tuple; recursion and calls of other functions of the repository are
-followed to a bounded depth.  The outcome of a world is ("return", term) or
-("raise", exception name).  Nothing of the analysed program is executed.
+The abstract domain is the set of uninterpreted *terms* listed below; the
+abstract semantics of an expression builds a term (attribute access, a call
+of an unknown function or constructor) or decides a test from the shape of
+its operands (`x is None`, truthiness of a tuple, `isinstance` against the
+classes a record says it has).  A test that the terms do not decide splits
+the case in two and the answer is remembered as a fact of that case, so the
+analysis is path-sensitive and its result is a finite table:
+case (argument terms + facts)  ->  ("return", term) | ("raise", name).
+Loops are unrolled only over tuples that are concrete in the abstract input;
+helpers and recursion of the repository are interpreted in place to a bounded
+depth; anything else (a loop over an abstract sequence, `with`, `try`) ends
+the analysis of that clause with exit 2.  No part of the analysed program is
+executed and no solver is involved: terms are never given values.
 
 Terms
     ("none",)                       None
